@@ -61,7 +61,7 @@ class FakeBivariate:
 
 
 def vine_patches(kt):
-    sh = NPShim(havoc_empty=True)
+    sh = NPShim(havoc_empty=True, force_obj=True)
     return patched(TR, np=sh, Bivariate=FakeBivariate, scipy=ns(stats=ns(kendalltau=kt))), patched(VN, np=sh)
 
 
